@@ -202,8 +202,10 @@ class ShuffleReduce(Expr):
         # Map Tuple[str] column names to str before the shuffle
         map_columns = {col: str(col) for col in chunked.columns if col != str(col)}
         unmap_columns = {v: k for k, v in map_columns.items()}
+        shuffle_by = split_by
         if map_columns:
             chunked = RenameFrame(chunked, map_columns)
+            shuffle_by = [map_columns.get(col, col) for col in split_by]
 
         # Sort or shuffle
         split_every = getattr(self, "split_every", 0) or chunked.npartitions
@@ -217,14 +219,14 @@ class ShuffleReduce(Expr):
         if self.sort:
             shuffled = SortValues(
                 chunked,
-                split_by,
+                shuffle_by,
                 npartitions=shuffle_npartitions,
                 ignore_index=ignore_index,
             )
         else:
             shuffled = RearrangeByColumn(
                 chunked,
-                split_by,
+                shuffle_by,
                 shuffle_npartitions,
                 ignore_index=ignore_index,
                 index_shuffle=not split_by_index and self.shuffle_by_index,
